@@ -59,8 +59,9 @@ fn case(rec: &mut Rec, ctx: &Ctx, idx: u64, rng: &mut ChaCha20Rng) {
     1 | 2 => rng.gen_range(6..=16),
     _ => rng.gen_range(1..=5),
   };
-  let m = match rng.gen_range(0..6) {
+  let m = match rng.gen_range(0..7) {
     0 => vec![],
+    6 => vec![0u8],
     1 => vec![0u8; rng.gen_range(1..40)],
     2 => rand_bytes(rng, 1),
     _ => rand_bytes_in(rng, 1..200),
@@ -202,8 +203,23 @@ fn case(rec: &mut Rec, ctx: &Ctx, idx: u64, rng: &mut ChaCha20Rng) {
       }
     }
   }
+  // --- the empty value and a lone NUL byte are different measurements / epochs
+  if m.is_empty() || m == [0u8] || epoch.is_empty() || epoch == "\u{0}" {
+    let m_alt: Vec<u8> = if m.is_empty() { vec![0u8] } else if m == [0u8] { vec![] } else { m.clone() };
+    if m_alt != m && tu >= 2 {
+      // t-1 shares of each: no measurement reaches its threshold
+      let others: Vec<String> = (0..tu - 1).filter_map(|_| parse(rec, &create_share(&m_alt, t, &epoch), &input).map(|x| x.share_b64)).collect();
+      let mut all: Vec<String> = (0..tu - 1).map(|i| mats[i].share_b64.clone()).collect();
+      all.extend(others);
+      rec.ev("group_shares_mixture");
+      if let Some(Some(k)) = quiet(rec, || group_shares(&all.join("\n"), &epoch)) {
+        rec.violation("group-shares:mixture:empty-vs-nul", format!("t-1 shares of measurement {:?} plus t-1 shares of {:?} recovered {}", m, m_alt, k), json!({"input": input}));
+        return;
+      }
+    }
+  }
   // --- a different epoch never yields the clients' key
-  for other in [format!("{}x", epoch), String::new(), "t".to_string(), epochs(rng), format!("{} ", epoch), format!(" {}", epoch), format!("{}\n", epoch), epoch.trim().to_string()] {
+  for other in [format!("{}x", epoch), String::new(), "t".to_string(), epochs(rng), format!("{} ", epoch), format!(" {}", epoch), format!("{}\n", epoch), epoch.trim().to_string(), "\u{0}".to_string(), format!("{}\u{0}", epoch)] {
     if other == epoch {
       continue;
     }
